@@ -1,6 +1,9 @@
 //! nbharness — runs request lines (one per stdin line: `<stream> <op> <arg>*`) against the
 //! real num-bigint built from /repo's working tree and prints one canonical result line each.
 mod wire;
+mod c07;
+mod c03;
+mod c08;
 mod c06;
 #[cfg(feature = "rand")]
 mod c18;
@@ -27,6 +30,9 @@ fn handlers() -> Vec<(&'static str, Handler)> {
         #[cfg(feature = "rand")]
         ("C18", c18::handle as Handler),
         ("C06", c06::handle as Handler),
+        ("C08", c08::handle as Handler),
+        ("C03", c03::handle as Handler),
+        ("C07", c07::handle as Handler),
     ]
 }
 
